@@ -167,6 +167,8 @@ class E2Contract:
         return {n: rng.uniform(-1.5, 1.5) for n in names}
 
     frame = True                 # compare every array input before / after (C13 built in)
+    bounded = None               # a string: the contract only enumerates a bounded part of a discrete domain -> results are
+                                 # reported as bounded stand-ins (never counted as proved); violations are still violations
     may_raise = False            # True: post() judges Raised outcomes itself; False: any exception violates `returns-normally`
 
 
@@ -409,6 +411,11 @@ def verify_config(contract, cfg, tier="quick", seed=0, timeout_s=10.0, spec_fact
             first = False
         results.append(res)
 
+    if contract.bounded:
+        for r in results:
+            if r.status == R.DISCHARGED:
+                r.status = R.BOUNDED_OK
+                r.scope = "bounded: " + contract.bounded
     # ---- canary
     can = canary_check(contract, cfg, W, Wn, twin, mk0, names, rng, spec_factory, timeout_s)
     if can is not None:
@@ -774,6 +781,10 @@ def canary_check(contract, cfg, W, Wn, twin, mk0, names, rng, spec_factory, time
                 raise
             except Exception as e:  # noqa
                 out = Raised(e)
+            if isinstance(out, Raised) and not contract.may_raise:
+                detail = "canary not applicable: the call raised (reported as returns-normally)"
+                found = True
+                break
             cls = list(contract.canary(W, cfg, inp, out))
         except DeadPath:
             continue
